@@ -161,3 +161,18 @@ Definition mode_ok (m : mode) : bool :=
   | ByBinsize b => PrimFloat.ltb 0 b
   | ByNbin n => 1 <=? n
   end.
+
+(* ------------------------------------------------ finite inputs (C05_contracts_hold) *)
+(* The contracts above are theorems when the data and the given limits are finite floats and the
+   bin specification in force is sane: max - min does not overflow, the bin size is finite and
+   positive, and the quotient of the upper limit, (max - min) / binsize, is finite and below 2^63
+   (so that the conversion to int64 is not out of range).  All of this is decided on the four
+   numbers min, max, binsize alone. *)
+Definition finite_f (f : float) : bool :=
+  match Prim2SF f with S754_infinity _ | S754_nan => false | _ => true end.
+Definition finite_opt (o : option float) : bool := match o with Some v => finite_f v | None => true end.
+Definition two63 : float := 0x1p63%float.
+Definition params_ok (p : params) : bool :=
+  let d := PrimFloat.sub (p_dmax p) (p_dmin p) in
+  let q := PrimFloat.div d (p_bsize p) in
+  finite_f d && finite_f (p_bsize p) && PrimFloat.ltb 0 (p_bsize p) && finite_f q && PrimFloat.ltb q two63.
